@@ -315,7 +315,7 @@ pub struct PaymentProof {
 	/// Kernel Excess
 	#[serde(
 		serialize_with = "secp_ser::as_hex",
-		deserialize_with = "secp_ser::commitment_from_hex"
+		deserialize_with = "dalek_ser::commitment_from_hex"
 	)]
 	pub excess: pedersen::Commitment,
 	/// Recipient Wallet Address
